@@ -1,7 +1,7 @@
 (** C05 — packet protection round-trips, matches RFC 9001, rejects tampering.
     Only statements live here; each is closed by [exact] of a lemma proved elsewhere. *)
 From Coq Require Import List ZArith Sorted.
-From V Require Import Gen.Params PktProt.PktNum PktProt.PktNumProofs PktProt.KeyPhase PktProt.KeyPhaseProofs PktProt.KeyPhaseRun PktProt.KeyPhaseExamples PktProt.Protect PktProt.ProtectProofs PktProt.ProtectExamples.
+From V Require Import Gen.Params PktProt.PktNum PktProt.PktNumProofs PktProt.KeyPhase PktProt.KeyPhaseProofs PktProt.KeyPhaseRun PktProt.KeyPhaseWindow PktProt.KeyPhaseExamples PktProt.Protect PktProt.ProtectProofs PktProt.ProtectExamples.
 Import ListNotations.
 Open Scope Z_scope.
 
@@ -64,6 +64,51 @@ Example C05_update_not_early_nonvacuous :
   = [0; 0; 1; 1; 1; 1; 1; 1; 2; 2; 2; 3].
 Proof. exact update_example_ok. Qed.
 Print Assumptions C05_update_not_early_nonvacuous.
+
+(** (c), receive side, over all histories of one endpoint ([_partial]: the facts about the
+    peer that a two-endpoint argument would supply are explicit premises).  For every AEAD
+    that opens what it sealed, after every well-formed history [ops] a genuine packet of the
+    peer's key generation g with packet number pn, delivered next, is opened to its
+    plaintext p
+    - when g is the current key phase r;
+    - when g = r+1, provided the peer was allowed to update (r = 0, or this endpoint has sent
+      and received in phase r) and its packet number is not below those received in phase r
+      (the endpoint then moves to phase r+1);
+    - when g = r-1 (reordering across a key update), provided its packet number is below
+      those received in phase r and the previous keys are still kept (not yet dropped by the
+      3*PTO timer). *)
+Theorem C05_keyphase_window_partial :
+  forall (ctext ptext adata : Type)
+         (aead_seal : key -> Z -> adata -> ptext -> ctext)
+         (aead_open : key -> Z -> adata -> ctext -> option ptext),
+    (forall k n ad p, aead_open k n ad (aead_seal k n ad p) = Some p) ->
+    forall cfg rd wd lim ops now pto3 pn ad p g,
+      wf_ops ctext ptext adata ops -> open_pns_nonneg ctext ptext adata ops -> 0 <= pn ->
+      let a := ua_run ctext ptext adata aead_seal aead_open cfg (ua_new rd wd lim) ops in
+      let tr := ua_trace ctext ptext adata aead_seal aead_open cfg (ua_new rd wd lim) ops in
+      let r := keyPhase a in
+      let res := ua_open ctext ptext adata aead_open a now pto3 pn (g mod 2) ad (aead_seal (rd, g) pn ad p) in
+      (g = r -> fst res = OpenOK p /\ keyPhase (snd res) = r) /\
+      (g = r + 1 ->
+       (r = 0 \/ ((exists pn', sealed_in ctext ptext adata r tr pn') /\ (exists pn', rcvd_in ctext ptext adata r tr pn'))) ->
+       (forall pn', rcvd_in ctext ptext adata r tr pn' -> pn' <= pn) ->
+       fst res = OpenOK p /\ keyPhase (snd res) = r + 1) /\
+      (g = r - 1 ->
+       (forall pn', rcvd_in ctext ptext adata r tr pn' -> pn < pn') ->
+       prevRcvAEAD a <> None -> dropped_now a now = false ->
+       fst res = OpenOK p /\ keyPhase (snd res) = r).
+Proof. exact keyphase_window. Qed.
+Print Assumptions C05_keyphase_window_partial.
+
+Example C05_keyphase_window_nonvacuous :
+  (forall k n ad p, sym_open k n ad (sym_seal k n ad p) = Some p) /\
+  (let a := ua_run sct Z Z sym_seal sym_open window_example_cfg (ua_new 1 0 10) window_example_ops in
+   let tr := ua_trace sct Z Z sym_seal sym_open window_example_cfg (ua_new 1 0 10) window_example_ops in
+   wf_ops sct Z Z window_example_ops /\ open_pns_nonneg sct Z Z window_example_ops /\
+   keyPhase a = 1 /\ (forall pn', rcvd_in sct Z Z 1 tr pn' -> 5 < pn') /\
+   prevRcvAEAD a <> None /\ dropped_now a 100 = false).
+Proof. exact (conj sym_open_seal window_example_ok). Qed.
+Print Assumptions C05_keyphase_window_nonvacuous.
 
 (** (a) Protect / unprotect round trip, byte level (encryptPacket vs. packetUnpacker), for
     every AEAD that opens what it sealed and adds a 16-byte tag and every header-protection
